@@ -1,5 +1,6 @@
 import FastraceModel.Lemmas.Collector
 import FastraceModel.Lemmas.Frame
+import FastraceModel.Lemmas.Nesting
 
 /-!
 # C18 — recorded times are consistent with execution
@@ -17,6 +18,13 @@ exactly the places the Rust code calls `Instant::now()`; `conv` is
 * `C18_queue_begins_increase`: within one scope, span and event instants are recorded in
   strictly increasing order of creation — a child starts after its parent, a sibling after the
   previous sibling, an event after the span it is recorded in was entered;
+* `C18_local_spans_nest`, `C18_siblings_disjoint`: for **every** well-nested piece of local-span
+  code (any tree of `LocalSpan`s, events and properties, any depth) run in a scope with room
+  for it: everything recorded inside a local span — child spans, their descendants, events —
+  has its instants strictly inside that span's `(begin, end)`; what a block leaves behind lies
+  entirely before what the next sibling block leaves behind; a span's direct children carry its
+  id as parent (`OutOK`, proved by mutual induction over the block structure in
+  `Lemmas/Nesting.lean`); with a monotone `conv` the same holds for the delivered records;
 * `C18_elapsed`: `elapsed()` is `Some` exactly for a recording span (the value itself is a clock
   difference, see the tie).
 
@@ -109,5 +117,42 @@ theorem C18_elapsed (s : Sys) (t : Nat) (v : String) (sv : SpanVal) (h : assocGe
 
 /-! non-vacuity -/
 example : QueueTimes (SpanQueue.withCapacity 4) 0 := by simp [QueueTimes, SpanQueue.withCapacity]
+
+/-! ### nesting of local spans -/
+
+/-- **a local span encloses everything recorded inside it**: run `LocalSpan::enter(n)`, any
+    well-nested body, drop — on a queue with room, a usable parent and non-zero ids.  The queue
+    gains the span's record `s` followed by the records `kids` of the body, and every one of them
+    (child spans at any depth, events) has its instants strictly between `s.beginT` and `s.endT`;
+    the span itself ran inside the clock window of the call sequence; earlier entries are
+    untouched and the innermost-open-span pointer is restored. -/
+theorem C18_local_spans_nest (n : String) (body : List LB) (q : SpanQueue) (c : Ctr)
+    (hr : Ready q c (LB.span n body).size) :
+    ∃ s kids, (runLB q c (.span n body)).1.spans = q.spans ++ s :: kids ∧
+      s.kind = .span ∧ s.parentId = q.nextParent.getD 0 ∧
+      c.clock < s.beginT ∧ s.beginT < s.endT ∧ s.endT ≤ (runLB q c (.span n body)).2.clock ∧
+      (∀ k ∈ kids, InWindow s.beginT (s.endT - 1) k) ∧
+      (runLB q c (.span n body)).1.nextParent = q.nextParent := by
+  obtain ⟨new, hran, hout⟩ := runLB_ok (.span n body) q c hr
+  obtain ⟨s, kids, rfl, hk, _, hp, _, h1, h2, h3, hkids⟩ := hout
+  exact ⟨s, kids, hran.spans, hk, hp, h1, h2, h3, outsOK_window body _ _ _ kids hkids, hran.par⟩
+
+/-- **sibling blocks do not overlap**: of two consecutive pieces of local-span code, everything
+    the first records lies at or before an instant `mid`, everything the second records strictly
+    after it -/
+theorem C18_siblings_disjoint (b : LB) (bs : List LB) (q : SpanQueue) (c : Ctr)
+    (hr : Ready q c (LB.sizes (b :: bs))) :
+    ∃ l1 l2 mid, (runLBs q c (b :: bs)).1.spans = q.spans ++ l1 ++ l2 ∧
+      (∀ x ∈ l1, InWindow c.clock mid x) ∧ (∀ y ∈ l2, InWindow mid (runLBs q c (b :: bs)).2.clock y) := by
+  obtain ⟨new, hran, hout⟩ := runLBs_ok (b :: bs) q c hr
+  obtain ⟨l1, l2, mid, rfl, _, h1, h2⟩ := hout
+  refine ⟨l1, l2, mid, by rw [hran.spans, List.append_assoc], outOK_window b _ _ _ l1 h1, outsOK_window bs _ _ _ l2 h2⟩
+
+/-! non-vacuity: `outer { inner {} ; event }` on an empty queue -/
+example :
+    ((runLB (SpanQueue.withCapacity 8) ⟨1, 0, 0⟩ (.span "outer" [.span "inner" [], .event "e" none])).1.spans.map
+      fun s => (s.name, s.beginT, s.endT)) = [("outer", 1, 5), ("inner", 2, 3), ("e", 4, 0)] := by decide
+example : Ready (SpanQueue.withCapacity 8) ⟨1, 0, 0⟩ (LB.span "outer" [.span "inner" [], .event "e" none]).size :=
+  ⟨by decide, by decide, by decide⟩
 
 end Fastrace
